@@ -103,7 +103,9 @@ CHECKS = {
         'the op list); the reader turns those blocks back into exactly the values with a clean end '
         '(C03_reads_back, composes C14_whole_file and the C01 item law); failed appends leave buffer and '
         'count untouched; append_to with the same marker continues the invariant. Correspondence: real '
-        'Writer driven through generated histories (byte-exact against the extracted model for the null '
+        'Writer driven through generated histories - append, unvalidated append, append_ser, extend_from_slice, '
+        'failing appends of each kind (rejected by validation, encoder or serializer failing after partial output), '
+        'reset with values pending, plus directed reset -> failing append -> good append histories (byte-exact against the extracted model for the null '
         'codec, value-level for deflate/snappy/bzip2/xz/zstandard), file read back with Reader.',
    note='sink assumed reliable here (short writes / sink errors are C13); compressors enter as functions with '
         'the law decompress(compress x) = x; blocks must fit the reader allocation limit; metadata order in '
@@ -147,12 +149,18 @@ CHECKS = {
         'call index) write_all delivers the whole buffer or reports an error after a strict prefix '
         '(C13_write_all), and an operation that hands any sequence of pieces to write_all either succeeds with '
         'the sink holding exactly the concatenation - what an in-memory buffer would hold - or fails '
-        '(C13_all_or_error). Check: every write path (datum writer, serde datum writer with block sizes, '
+        '(C13_all_or_error); the reusable single-object writer, for every history of calls (values that encode and '
+        'values that do not) against every sink script, has its buffer back at the header after each call, and a call '
+        'returning Ok(n) delivered exactly header ++ payload of that call with n its length - nothing of a failed '
+        'message travels with a later one (C13_single_object_writer_reuse, model sow_run of write_value_ref). '
+        'Check: every write path (datum writer, serde datum writer with block sizes, '
         'single-object writer, container writer with header/blocks/markers and codecs) first on a reliable sink '
         '(reference bytes and the pieces it issues), then under scripts: 1/3/7/random bytes per call, a failure '
         'and an Interrupted injected at each call index, failing flush, fail-recover-retry; Ok => sink == '
         'reference (semantically for unordered maps / header metadata), counts where documented, no panic in '
-        'drop; the extracted write_pieces model predicts result, bytes and number of calls of single-op scenarios.',
+        'drop; the extracted write_pieces model predicts result, bytes and number of calls of single-op scenarios; the '
+        'extracted sow_run model predicts result, count and delivered bytes of every call of the 3-message '
+        'single-object histories (short messages included), and each Ok message after a fault is compared alone.',
    note='the model is of std::io::Write::write_all over scripted sinks, plus the fact (checked by the call log of '
         'the instrumented sink) that every write site uses write_all; which pieces a writer issues is observed, '
         'not modelled. A fault during Drop is not reportable by design and not counted.',
